@@ -41,8 +41,14 @@ var initials = map[string]string{
 		"0 @I3@ INDI\n1 NAME Di /Dale/\n1 BIRT\n2 DATE 3 Mar 1855\n1 FAMS @F2@\n" +
 		"0 @F1@ FAM\n1 HUSB @I2@\n1 WIFE @I1@\n" +
 		"0 @F2@ FAM\n1 HUSB @I2@\n1 WIFE @I3@\n",
+	// the child's own marriage family precedes the family it was born into
+	"two-generations": "0 @I1@ INDI\n1 NAME Ann /Ash/\n1 BIRT\n2 DATE 1 Jan 1850\n1 FAMS @F2@\n" +
+		"0 @I2@ INDI\n1 NAME Bob /Birch/\n1 BIRT\n2 DATE 2 Feb 1848\n1 FAMS @F2@\n" +
+		"0 @I3@ INDI\n1 NAME Cy /Birch/\n1 BIRT\n2 DATE 3 Mar 1875\n1 FAMS @F1@\n1 FAMC @F2@\n" +
+		"0 @F1@ FAM\n1 HUSB @I3@\n" +
+		"0 @F2@ FAM\n1 HUSB @I2@\n1 WIFE @I1@\n1 CHIL @I3@\n",
 }
-var initialNames = []string{"empty", "one", "couple-child", "shared-spouse"}
+var initialNames = []string{"empty", "one", "couple-child", "shared-spouse", "two-generations"}
 
 // ---------- operations ----------
 
@@ -690,7 +696,7 @@ func main() {
 	vlib.Main(&vlib.Check{
 		ID:    "C13",
 		Level: "model_checking",
-		Rule: "explicit-state search over operation histories of the real Document: from each of 4 initial documents every history of <=D operations (quick 3, thorough 4) over an alphabet of ~45 operation instances on the colliding pool {I1,I2,I3,F1,F2} (edits, 'warm' = call every view, read-only operations: Warnings, String, Compare, SurroundingSimilarity, CompareNodes+Sort, copy-out, Publish, queries) is replayed on a fresh document; histories whose API preconditions fail are cut. At the end of every history all derived views are compared with the same views on a fresh decode of the document's text, and a final read-only operation must leave the text unchanged. " +
+		Rule: "explicit-state search over operation histories of the real Document: from each of 5 initial documents every history of <=D operations (quick 3, thorough 4) over an alphabet of ~45 operation instances on the colliding pool {I1,I2,I3,F1,F2} (edits, 'warm' = call every view, read-only operations: Warnings, String, Compare, SurroundingSimilarity, CompareNodes+Sort, copy-out, Publish, queries) is replayed on a fresh document; histories whose API preconditions fail are cut. At the end of every history all derived views are compared with the same views on a fresh decode of the document's text, and a final read-only operation must leave the text unchanged. " +
 			"states = distinct document texts reached; distinct_nontrivial additionally counts distinct histories of length >=2.",
 		Assumptions: []string{
 			"a state is the history that reaches it (live documents cannot be cloned; nodeCache is process-wide and keyed by identity); successor = replay on a fresh instance plus one operation",
